@@ -98,3 +98,12 @@ chk('C04', 'other',
     'thorough tier); MCNP TR semantics p_aux = B(p - O); T4 TRANSFORM semantics for rotated tori assumed; macrobody facets under TR are covered '
     'through C03 (chain layer) + layer 3 decks',
     'symbolic execution of the real Python code + rational-function identity + z3 nonlinear real arithmetic', 'DESIGN.md 4/C04')
+
+chk('C06', 'translation_validation',
+    'LAT=1 decks (1-3 dimensions, orthogonal or one skew pair, every listing order of the plane pairs and inside a pair, FILL arrays with '
+    'different universes / universe 0 / the own universe, or FILL=n with --lattice ranges; ranges incl. negative and degenerate ones) with '
+    'symbolic pitches, offsets, container radius and placements through the real pipeline; per path and provenance label z3 proves (point '
+    'symbolic) that the written volumes cover exactly the union of the reference elements: unit cell translated by i a1+j a2+k a3, positive index '
+    'across the first-listed plane, first index fastest, nothing outside the ranges, own universe -> lattice cell material.',
+    TV_NOTE + '; <= 9 elements per lattice; known finding F15 (degenerate range + extra trivial range rejected) in known_findings.json', TV_TECH,
+    'DESIGN.md 4/C06')
